@@ -39,7 +39,7 @@ ASSUMPTIONS = ["CPython 3.12 PathFinder/FileFinder + pkgutil.iter_modules define
                "key order inside `members` is not part of 'the resulting tree' (the CLI sorts keys)"]
 MANIFEST = {
     "category": "model_checking",
-    "text": "Stateless exploration of directory-listing schedules (every permutation of one directory at a time in quick, two in thorough) over all small file layouts (<= 3 / 5 entries from a 22-entry alphabet; layouts with a stubs distribution also under find_stubs_package=True) on two search paths, on the real finder and loader with os.walk / Path.iterdir intercepted; canonical JSON must be schedule- and request-form-independent and the loaded module set must agree with a PathFinder/pkgutil reference walker. Entries include symbolic links (a second name for a sub-package directory, for a module file); family PTH adds directories through .pth lines (absolute, through a link, relative, with ..) and requests the packages by name and by the path of every portion, against site.addsitedir's order.",
+    "text": "Stateless exploration of directory-listing schedules (every permutation of one directory at a time in quick, two in thorough) over all small file layouts (<= 3 / 5 entries from a 22-entry alphabet; layouts with a stubs distribution also under find_stubs_package=True) on two search paths, on the real finder and loader with os.walk / Path.iterdir intercepted; canonical JSON must be schedule- and request-form-independent and the loaded module set must agree with a PathFinder/pkgutil reference walker. Entries include symbolic links (a second name for a sub-package directory, for a module file); family PTH adds directories through .pth lines (absolute, through a link, relative, with ..) and requests the packages by name and by the path of every portion, against site.addsitedir's order. Family T3 places entries (regular, pkgutil-style and PEP 420 portions, a sub-package) on three search paths and requests the package by name and by the path of each portion.",
     "note": "Bounded by layout size (<=3 / <=4 entries) and deviation bound (1 / 2 permuted directories); listing order is the only nondeterminism and it is fully owned by the harness.",
     "technique": "stateless model checking over directory-listing schedules (choice-point DFS with deviation bounding) on the real finder/loader, CPython PathFinder walker as oracle",
 }
